@@ -161,7 +161,7 @@ def h_rtx_clears_missing(ctx, rtx):
     missing: it is not requested again when the next gap is detected."""
     from aiortc.rtp import wrap_rtx
 
-    r = _mk_receiver(rtx)
+    r = _mk_receiver(rtx, upper=bool(rtx) and ctx.choice("rtx_codec_spelt_in_upper_case", [False, True]))
     nacks = []
 
     async def rec_nack(ssrc, lost):
@@ -235,12 +235,15 @@ class _Track:
         pass
 
 
-def _mk_receiver(rtx):
+RTX_UPPER = RTCRtpCodecParameters(mimeType="video/RTX", clockRate=90000, payloadType=97, parameters={"apt": 96})
+
+
+def _mk_receiver(rtx, upper=False):
     r = RTCRtpReceiver("video", _Tr())
     codecs = sx.SymDict() if sx.active() else {}
     codecs[96] = VP8
     if rtx:
-        codecs[97] = RTX
+        codecs[97] = RTX_UPPER if upper else RTX  # (codec names are case-insensitive)
     r._RTCRtpReceiver__codecs = codecs
     rmap = sx.SymDict() if sx.active() else {}
     if rtx:
